@@ -67,8 +67,10 @@ CALLS = {
     "en_timeperiod": P("12 March 2015 10:30", languages=["en"], settings={"RETURN_TIME_AS_PERIOD": True}),
     "en_plain": P("12 March 2015 10:30", languages=["en"]),
     "search_fr": S("le 3 mars 2012 et hier", languages=["fr"]),
-    "search_de": S("am 3. März 2012 und gestern", languages=["de"]),
-    "search_en": S("on 3 March 2012 and yesterday", languages=["en"]),
+    "search_de": S("am 7. Juni 1999 und gestern", languages=["de"]),
+    "search_en": S("on 21 October 2005 and 3 months later and yesterday", languages=["en"]),
+    "fr_nolocale": P("02/03/2012", languages=["fr"], settings={"PREFER_LOCALE_DATE_ORDER": False}),
+    "en_tomorrow": P("tomorrow", languages=["en"]),
     "search_en_set": S("on 3 March 2012 and 2 days later", languages=["en"], settings={"PREFER_DAY_OF_MONTH": "first"}),
     "slot_fr_first": {"op": "get_date_data", "slot": 1, "ctor": {"languages": ["fr"], "settings": {"PREFER_DAY_OF_MONTH": "first"}}, "s": "mars 2015"},
     "slot_en_now": {"op": "get_date_data", "slot": 2, "ctor": {"languages": ["en"], "settings": {"PREFER_DAY_OF_MONTH": "first"}}, "s": "now"},
@@ -88,15 +90,16 @@ PAIRS_QUICK = [
     ("language-or-order", "fr_num", "en_num", True), ("language-or-order", "fr_num", "tl_num", True), ("language-or-order", "en_num", "tl_num", True), ("language-or-order", "fr_num", "jalali", True),
     ("language-or-order", "de_txt", "ja_txt", True), ("language-or-order", "en_dmy", "en_ymd", True), ("language-or-order", "fr_rel", "en_rel", True),
     ("skip-tokens-or-normalize", "en_skipfoo", "en_skipbar", True), ("skip-tokens-or-normalize", "fr_norm_on", "fr_norm_off", True),
-    ("search", "search_fr", "search_de", True), ("search", "search_en", "fr_num", True),
+    ("search", "search_fr", "search_de", True), ("search", "search_en", "fr_num", True), ("search", "search_en", "en_tomorrow", True), ("search", "search_fr", "fr_rel", True),
+    ("language-or-order", "fr_num", "fr_nolocale", True), ("skip-tokens-or-normalize", "en_skipfoo", "en_plain", True),
     ("live-instance", "slot_fr_first", "parse_en_first", True),
 ]
 PAIRS_MORE = [
     ("language-or-order", "en_nolocale_order", "tl_num", True), ("language-or-order", "tl_txt", "fr_num", True), ("language-or-order", "jalali_short", "en_dmy", True),
     ("language-or-order", "en_fmt", "fr_num", True), ("non-vocabulary-settings", "en_ts", "en_tz", True), ("search", "search_en_set", "slot_en_now", True),
-    ("search", "search_de", "jalali", True), ("live-instance", "slot_en_now", "search_en_set", True), ("skip-tokens-or-normalize", "en_skipfoo", "en_plain", True),
+    ("search", "search_de", "jalali", True), ("live-instance", "slot_en_now", "search_en_set", True),
     ("skip-tokens-or-normalize", "fr_norm_off", "fr_num", True), ("identical", "tl_num", "tl_num", False), ("identical", "en_skipfoo", "en_skipfoo", False),
-    ("language-or-order", "fr_rel", "tl_num", True), ("search", "search_fr", "search_en", True), ("search", "search_fr", "fr_rel", True),
+    ("language-or-order", "fr_rel", "tl_num", True), ("search", "search_fr", "search_en", True),
 ]
 PAIRS_WARM_ONLY = [("autodetect", "auto_en", "auto_fr", True), ("autodetect", "auto_fr", "tl_num", True)]
 
@@ -116,6 +119,11 @@ def _setup(p):
     env.setup_path()
     import dateparser  # noqa: F401
     from checks import c03_history
+    from simkit import simsched
+
+    # locks the library creates lazily (during warm-up or during the calls) must be
+    # scheduler-aware too; a SimLock is an ordinary lock outside simulated threads
+    simsched.patch_locks()
 
     world.install(CLOCK_US)
     world.set_zone(p.get("zone", "UTC"))
@@ -163,17 +171,14 @@ def run_plan(p):
         return fn
 
     fns = [mk(i, op) for i, op in enumerate(p["calls"])]
-    sched = simsched.Scheduler(prefix, fns, p["plan"], record=bool(p.get("record")), opcode=bool(p.get("opcode")))
+    sched = simsched.Scheduler(prefix, fns, p["plan"], record=bool(p.get("record")), opcode=bool(p.get("opcode")), stall_s=20.0)
     status = "ok"
-    simsched.patch_locks()
     try:
         sched.run()
     except simsched.Deadlock as e:
         status = "deadlock:" + str(e)
     except simsched.Stall as e:
         status = "stall:" + str(e)
-    finally:
-        simsched.unpatch_locks()
     res = {
         "status": status, "outs": [holder.get(i) for i in range(len(fns))], "counts": sched.count, "switch_sites": sched.switch_sites,
         "blocks": sched.block_events, "log": sched.log,
@@ -273,6 +278,13 @@ def explore_pairs(farm, rep, jobs, stats, seed):
         if 1 < k < len(evA):
             stats["nontrivial"].add((an, bn, warm, site[1], site[2]))
             stats["functions"].add(site[3])
+        if val["status"].startswith("stall"):
+            # a thread stopped emitting events without being parked or reported as blocked:
+            # the harness cannot see why (a lock it does not wrap?) -- never a verdict
+            stats["stalls"] += 1
+            if stats["stalls"] <= 3:
+                rep.harness_error("schedule %s x %s k=%d stalled: %s" % (an, bn, k, val["status"][:200]))
+            continue
         if val["status"] != "ok":
             sig = {"stratum": stratum, "kind": val["status"].split(":")[0], "site_func": site[3]}
             first_bad.setdefault((j, json.dumps(sig, sort_keys=True)), [sig, k, val, site, set()])[4].add(site[3])
@@ -357,6 +369,11 @@ def explore_seeded(farm, rep, pairs, tier, seed, stats, n):
         switches = sum(1 for a, b in zip(val["log"], val["log"][1:]) if a[0] != b[0])
         if switches >= 1 and any(l[1] > 0 for l in val["log"][:-1]):
             stats["seeded_distinct"].add(seeds.digest([chosen, warm, val["log"]]))
+        if val["status"].startswith("stall"):
+            stats["stalls"] += 1
+            if stats["stalls"] <= 3:
+                rep.harness_error("seeded schedule %s stalled: %s" % (chosen, val["status"][:200]))
+            continue
         if val["status"] != "ok":
             sig = {"stratum": "seeded-multi", "kind": val["status"].split(":")[0]}
             rep.violation(sig, {"run": "multi-%s" % "-".join(chosen), "calls": pl["calls"], "names": chosen, "warm": warm, "plan": pl["plan"], "observed": val["outs"], "sequential": seqs}, "seeded schedule %s plan %s: %s" % (chosen, pl["plan"], val["status"]))
@@ -383,7 +400,7 @@ def main(args):
         pass
 
     st = St()
-    for k in ("steps_in_A", "schedules", "violating_schedules", "blocked_on_lock", "pairs_fully_enumerated", "seeded_schedules", "intruder_ran_inside"):
+    for k in ("steps_in_A", "schedules", "violating_schedules", "blocked_on_lock", "pairs_fully_enumerated", "seeded_schedules", "intruder_ran_inside", "stalls"):
         st[k] = 0
     st.update(stats_sets)
     pairs = list(PAIRS_QUICK)
